@@ -256,6 +256,28 @@ def observe(eid, e, rng, window=21, light=False):
         except Exception as x:
             p["exc"] = type(x).__name__
         ev["probes"].append(p)
+    # the calendar then serves as an operand of further expressions (a calendar object is a value: combining it
+    # must not change what it answers itself) and is asked again
+    try:
+        extra = pj.FixedCalendar(3)
+        for derived in (cal + extra, cal + 2, cal - extra, cal * 2, cal / 2, cal | extra, (cal + extra) + extra,
+                        cal.apply(FUNCS["orzero"])):
+            try:
+                derived.get_available_units(inst(DAY))
+            except Exception:
+                pass
+    except Exception:
+        pass
+    for t, micro in probes[::5][:8]:
+        p = {"t": t, "v": [0, 0], "r": [0, 1], "exc": ""}
+        try:
+            p["v"] = to_q(cal.get_available_units(inst(t, micro)))
+            p["r"] = to_q(res.get_available_units(inst(t, micro)))
+        except ZeroDivisionError:
+            p["exc"] = "ZeroDivisionError"
+        except Exception as x:
+            p["exc"] = type(x).__name__
+        ev["probes"].append(p)
     starts = [2 * DAY, 5 * DAY + 540, 12 * DAY + 540, S1, E1 + DAY]
     micro = 0 if ends else 333333
     for frm in (starts if not light else rng.sample(starts, 2)):
